@@ -85,7 +85,7 @@ def flattenEvent(event: LogEvent) -> None:
         if fieldName is None:
             continue
 
-        if conversion != "r":
+        if conversion not in ("r", "a"):
             conversion = "s"
 
         flattenedKey = keyFlattener.flatKey(fieldName, formatSpec, conversion)
@@ -106,7 +106,9 @@ def flattenEvent(event: LogEvent) -> None:
 
         if conversion == "r":
             conversionFunction = repr
-        else:  # Above: if conversion is not "r", it's "s"
+        elif conversion == "a":
+            conversionFunction = ascii
+        else:  # Above: if conversion is not "r" or "a", it's "s"
             conversionFunction = str
 
         if callit:
